@@ -313,6 +313,8 @@ func c14SchedLeg(c *core.Ctx) {
 			{PeriodNs: c14Ms, Pre: "stopped", IdleMs: 140, D: []int64{h, 100 * c14Ms}, Steps: []c14SchedStep{{Op: "begin", G: 1}, {Op: "begin", G: 0}, {Op: "adv", G: 0, To: 4}, {Op: "adv", G: 1, To: 4}}},
 			// a goroutine held between refreshing the time and restarting the updater; another call arrives later
 			{PeriodNs: c14Ms, Pre: "stopped", IdleMs: 140, D: []int64{100 * c14Ms, 100 * c14Ms}, Steps: []c14SchedStep{{Op: "begin", G: 0}, {Op: "adv", G: 0, To: 3}, {Op: "sleep", Ms: 50}, {Op: "adv", G: 0, To: 4}, {Op: "begin", G: 1}, {Op: "adv", G: 1, To: 4}}},
+			// a single call on a clock whose time is older than timeout + 1s
+			{PeriodNs: c14Ms, Pre: "stopped", IdleMs: 1200, D: []int64{100 * c14Ms}, Steps: []c14SchedStep{{Op: "begin", G: 0}, {Op: "adv", G: 0, To: 4}}},
 			// both calls have decided to take the lock; the one-hour deadline extends the clock first, the short one after it
 			{PeriodNs: c14Ms, Pre: "stopped", IdleMs: 40, D: []int64{h, 30 * c14Ms}, Steps: []c14SchedStep{{Op: "begin", G: 0}, {Op: "adv", G: 0, To: 2}, {Op: "begin", G: 1}, {Op: "adv", G: 1, To: 2}, {Op: "adv", G: 0, To: 4}, {Op: "adv", G: 1, To: 4}}},
 			{PeriodNs: c14Ms, Pre: "stopped", IdleMs: 40, D: []int64{h, 100 * c14Ms, 30 * c14Ms}, Steps: []c14SchedStep{{Op: "begin", G: 0}, {Op: "adv", G: 0, To: 3}, {Op: "begin", G: 2}, {Op: "sleep", Ms: 60}, {Op: "adv", G: 0, To: 4}, {Op: "begin", G: 1}, {Op: "adv", G: 1, To: 4}, {Op: "adv", G: 2, To: 4}}},
